@@ -99,7 +99,7 @@ func init() {
 		Level: "proof",
 		Funcs: []string{"tcell.(*tScreen).parseRune", "tcell.(*tScreen).parseFunctionKey", "tcell.(*tScreen).parseFocus", "tcell.(*tScreen).parseClipboard",
 			"tcell.(*tScreen).parseXtermMouse", "tcell.(*tScreen).parseSgrMouse", "tcell.(*tScreen).collectEventsFromInput", "tcell.(*tScreen).inputLoop"},
-		Custom: []func(*PropRun){c02Replays},
+		Custom: []func(*PropRun){c02Replays, c02KeyTables},
 		Trusted: []string{"bytes.Buffer.ReadBytes consumes up to and including the first delimiter (assumed from its documentation; the body uses an assembly IndexByte); other bytes.Buffer methods executed from source",
 			"base64 Decode/DecodedLen: bounds only (assumed)", "transform.Transformer contract (bounds, no output without input)",
 			"composition: independence of the read chunking follows from the per-parser prefix contracts (complete => a non-empty prefix is consumed and the events depend on that prefix only; not complete => nothing touched; partial exactly for proper prefixes of acceptable input) and the driver contract - this meta-argument is written in DESIGN.md, not machine-checked; mainLoop/inputLoop (timers, channels) are outside"},
@@ -111,7 +111,7 @@ func init() {
 		ID:    "C05",
 		Level: "proof",
 		Funcs: []string{"tcell.(*tScreen).scanInput", "tcell.(*tScreen).inputLoop", "tcell.(*baseScreen).PostEvent", "tcell.(*baseScreen).PostEventWait", "tcell.(*baseScreen).PollEvent",
-			"tcell.(*baseScreen).ChannelEvents", "tcell.NewEventFocus", "tcell.NewEventKey", "tcell.NewEventMouse", "tcell.(*simscreen).postEvent"},
+			"tcell.(*baseScreen).ChannelEvents", "tcell.NewEventFocus", "tcell.NewEventKey", "tcell.NewEventMouse", "tcell.(*simscreen).postEvent", "tcell.(*tScreen).resize"},
 		Custom: []func(*PropRun){c05Replays, c02Replays},
 		Trusted: []string{"Go channels are FIFO and deliver each value to exactly one receiver; the schedule-quantified conclusion (exactly once, global order) follows from the per-function contracts by the standard argument for single-consumer FIFO queues, which is assumed",
 			"screenImpl.EventQ/StopQ return the implementation's channels (assumed interface contract)", "time.Now() is an arbitrary time value (ghost clock not modelled)"},
@@ -155,7 +155,7 @@ func init() {
 		ID:     "C09",
 		Level:  "other",
 		Funcs:  []string{"tcell.(*CellBuffer).SetContent", "tcell.(*CellBuffer).GetContent", "tcell.(*CellBuffer).Fill", "tcell.(*tScreen).encodeRune"},
-		Custom: []func(*PropRun){c09RuneWidth},
+		Custom: []func(*PropRun){c09RuneWidth, c09Emit},
 		Trusted: []string{"go-runewidth's (*Condition).RuneWidth is executed from its source for the listed code points with no lookup table built (RUNEWIDTH_EASTASIAN unset / CreateLUT not called); its global DefaultCondition is what tcell calls"},
 		Assume: []string{"PARTIAL claim: decided is only that a primary rune that is a C0 control, DEL, a C1 control, U+200B-200F, U+2028-202E, U+FEFF, a surrogate or an invalid code point is stored with width 0 and handed out as a blank (chain: RuneWidth == 0 from the dependency's source; SetContent stores width = RuneWidth(main) - C08 contract; GetContent blanks width 0 and runes < ' ' - C08 contract), and that an unencodable rune never reaches the terminal raw (encodeRune, C17 contract)",
 			"NOT decided: that everything written parses as complete ECMA-48 sequences (no tokenizer over the emitted stream was built; per-description string well-formedness is C14's grammar check, parameter rendering C07/C15); other Cf characters such as U+2060-2064, U+2066-2069, U+061C have width 1 in go-runewidth and are passed on as content (UTF-8 text, no control byte)"},
@@ -163,7 +163,7 @@ func init() {
 	reg(&PropDef{
 		ID:    "C11",
 		Level: "proof",
-		Funcs: []string{"tcell.(*tScreen).parseRune", "tcell.(*tScreen).parseFocus", "tcell.(*tScreen).parseFunctionKey", "tcell.(*tScreen).inputLoop", "tcell.(*tScreen).collectEventsFromInput"},
+		Funcs: []string{"tcell.(*tScreen).parseRune", "tcell.(*tScreen).parseFocus", "tcell.(*tScreen).parseFunctionKey", "tcell.(*tScreen).inputLoop", "tcell.(*tScreen).collectEventsFromInput", "tcell.(*tScreen).scanInput"},
 		Custom: []func(*PropRun){c11Paste, c02Replays, c11Charsets},
 		Trusted: []string{"transform.Transformer (the charset decoder): bounds and 'no output without consuming input' are assumed; WHICH rune a byte sequence decodes to is the decoder's business (x/text), not modelled",
 			"Tty.Read fills at most len(p) bytes and reports how many (assumed interface contract)",
@@ -177,7 +177,7 @@ func init() {
 		Level: "proof",
 		Funcs: []string{"tcell.(*simscreen).postEvent", "tcell.(*simscreen).InjectKey", "tcell.(*simscreen).InjectMouse", "tcell.(*simscreen).InjectKeyBytes",
 			"tcell.(*simscreen).showCursor", "tcell.(*simscreen).hideCursor", "tcell.(*simscreen).ShowCursor", "tcell.(*simscreen).GetCursor",
-			"tcell.(*simscreen).resize", "tcell.(*simscreen).SetSize", "tcell.(*simscreen).clearScreen", "tcell.(*simscreen).drawCell", "tcell.(*simscreen).draw", "tcell.(*simscreen).Show"},
+			"tcell.(*simscreen).resize", "tcell.(*simscreen).SetSize", "tcell.(*simscreen).clearScreen", "tcell.(*simscreen).drawCell", "tcell.(*simscreen).draw", "tcell.(*simscreen).Show", "tcell.(*simscreen).Fini"},
 		Custom: []func(*PropRun){c18Replays, c11Charsets},
 		Bounded: []string{"charset[*]/every-character-one-event: InjectKeyBytes on every character of every registered stateless charset, executed natively on the real code; not a proof"},
 		Trusted: []string{"transform.Transformer.Transform writes only into dst, returns counts within bounds and produces no output without consuming input (assumed interface contract); which bytes a charset produces is not modelled",
@@ -191,7 +191,7 @@ func init() {
 		ID:       "C19",
 		Level:    "proof",
 		WasmLoad: true,
-		Funcs: []string{"tcell.paletteColor", "tcell.(*wScreen).drawCell", "tcell.(*wScreen).clearScreen", "tcell.(*wScreen).draw", "tcell.(*wScreen).postEvent", "tcell.(*wScreen).onMouseEvent", "tcell.(*wScreen).onPaste", "tcell.(*wScreen).onFocus", "tcell.(*wScreen).Show"},
+		Funcs: []string{"tcell.paletteColor", "tcell.(*wScreen).drawCell", "tcell.(*wScreen).clearScreen", "tcell.(*wScreen).draw", "tcell.(*wScreen).postEvent", "tcell.(*wScreen).onMouseEvent", "tcell.(*wScreen).onPaste", "tcell.(*wScreen).onFocus", "tcell.(*wScreen).Show", "tcell.(*wScreen).enableMouse", "tcell.(*wScreen).enablePasting"},
 		Custom:   []func(*PropRun){c19Balance, c19KeyTable},
 		Trusted: []string{"webfiles/tcell.js implements the calls it receives (JavaScript, outside the verifier)",
 			"syscall/js: Value.Int/Bool/String are functions of the value; Call/Set/FuncOf do not touch Go state (assumed contracts in spec/trusted/js.spec)",
@@ -199,7 +199,7 @@ func init() {
 			"DOM naming: MouseEvent.which 1/2/3 = left/middle/right; KeyboardEvent.key names map to tcell key constants by the rule in govc/c19.go (domKeyConst)"},
 		Assume: []string{"cell widths are non-negative (CellBuffer invariant kept by SetContent/Fill/Resize; stated as a precondition of draw/Show)",
 			"draw: completeness of the scan (every changed cell is visited) is proved for buffers without wide or blank-normalised cells; for wide cells only 'every visited cell is a cell of the screen and unchanged cells are not touched' is proved",
-			"not decided: which handler enableMouse/enablePasting/EnableFocus install (function values passed to JavaScript), Sync, SetSize's effect on the page, the JavaScript side"},
+			"not decided: Sync, SetSize's effect on the page, the JavaScript side; EnableFocus/DisableFocus install their handler inline (straight-line, not under contract)"},
 	})
 	reg(&PropDef{
 		ID:    "C20",
@@ -379,6 +379,61 @@ func c10Discipline(run *PropRun) {
 	_ = raceBody
 	for _, g := range run.Groups {
 		switch {
+		case strings.Contains(g.Name, "(*simscreen).Fini/close[quit]"), strings.Contains(g.Name, "/close[quit]/at-most-once") && strings.Contains(g.Name, "tScreen"):
+			mk := `NewSimulationScreen("")`
+			if strings.Contains(g.Name, "tScreen") {
+				mk = `newC10Screen()`
+			}
+			g.ReplayGo = replayTest("tcell", []string{"sync", modPath + "/terminfo", "_ " + modPath + "/terminfo/base"}, `
+	for round := 0; round < 20; round++ {
+		s := `+mk+`
+		if s == nil { fail("no screen"); return }
+		if err := s.Init(); err != nil { fail("init: %v", err); return }
+		var wg sync.WaitGroup
+		var mu sync.Mutex
+		var failure interface{}
+		for k := 0; k < 4; k++ { // four shutdown callers at once (and, after them, one more)
+			wg.Add(1)
+			go func() {
+				defer wg.Done()
+				defer func() {
+					if r := recover(); r != nil { mu.Lock(); failure = r; mu.Unlock() }
+				}()
+				s.Fini()
+			}()
+		}
+		wg.Wait()
+		func() {
+			defer func() {
+				if r := recover(); r != nil { failure = r }
+			}()
+			s.Fini()
+		}()
+		if failure != nil { fail("concurrent / repeated Fini(): %v", failure); return }
+	}`) + `
+type c10Tty struct{ wake chan struct{} }
+
+func (t *c10Tty) Read(p []byte) (int, error)      { <-t.wake; return 0, nil }
+func (t *c10Tty) Write(p []byte) (int, error)     { return len(p), nil }
+func (t *c10Tty) Close() error                    { return nil }
+func (t *c10Tty) Start() error                    { return nil }
+func (t *c10Tty) Stop() error                     { return nil }
+func (t *c10Tty) Drain() error                    { select { case t.wake <- struct{}{}: default: }; return nil }
+func (t *c10Tty) NotifyResize(cb func())          {}
+func (t *c10Tty) WindowSize() (WindowSize, error) { return WindowSize{Width: 80, Height: 24}, nil }
+
+func newC10Screen() Screen {
+	ti, err := terminfo.LookupTerminfo("xterm")
+	if err != nil {
+		return nil
+	}
+	s, err := NewTerminfoScreenFromTtyTerminfo(&c10Tty{wake: make(chan struct{}, 4)}, ti)
+	if err != nil {
+		return nil
+	}
+	return s
+}
+`
 		case strings.Contains(g.Name, "(*tScreen).CanDisplay/guarded[fallback]"):
 			g.ReplayGo = replayTest("tcell", []string{"sync"}, `//verif:race
 	s := &tScreen{}
@@ -492,6 +547,17 @@ func c18Replays(run *PropRun) {
 		fail("SetSize(30,10) followed by Show() produced no resize event")
 		return
 	}`)
+		case "tcell.(*simscreen).Fini/ensures#second-is-noop", "tcell.(*simscreen).Fini/ensures#at-most-once":
+			g.ReplayGo = replayTest("tcell", nil, `
+	s := NewSimulationScreen("")
+	if err := s.Init(); err != nil { fail("init: %v", err); return }
+	s.Fini()
+	func() {
+		defer func() {
+			if r := recover(); r != nil { fail("a second Fini() is not a no-op: %v", r) }
+		}()
+		s.Fini()
+	}()`)
 		case "tcell.(*simscreen).InjectKeyBytes/loop1/invariant-preserved#nb":
 			g.ReplayGo = replayTest("tcell", nil, `
 	s := NewSimulationScreen("UTF-8").(*simscreen)
@@ -732,6 +798,43 @@ func c05Replays(run *PropRun) {
 		}()
 		_ = NewEventFocus(true).When()
 	}()`)
+		case "tcell.(*tScreen).resize/calls#never-evicts", "tcell.(*tScreen).resize/ensures#one-offer", "tcell.(*tScreen).resize/calls#never-parks":
+			g.ReplayGo = replayTest("tcell", []string{"time", modPath + "/terminfo"}, `
+	scr := &tScreen{ti: &terminfo.Terminfo{}, tty: &c05Tty{}}
+	scr.eventQ = make(chan Event, 10)
+	scr.quit = make(chan struct{})
+	scr.cells.Resize(80, 24)
+	scr.w, scr.h = 80, 24
+	for i := 0; i < 10; i++ { scr.eventQ <- NewEventKey(KeyRune, rune('a'+i), ModNone) } // the queue is full, nobody polls
+	done := make(chan struct{})
+	go func() { scr.resize(); close(done) }() // the window is now 100x40
+	select {
+	case <-done:
+	case <-time.After(time.Second):
+		fail("resize() with a full event queue did not return within 1s")
+		return
+	}
+	for i := 0; i < 10; i++ {
+		select {
+		case ev := <-scr.eventQ:
+			k, ok := ev.(*EventKey)
+			if !ok || k.Rune() != rune('a'+i) { fail("after resize() with a full queue, event %d in the queue is %T %v: a queued key was evicted or reordered", i, ev, ev); return }
+		default:
+			fail("after resize() with a full queue only %d of the 10 queued keys are left", i)
+			return
+		}
+	}`) + `
+type c05Tty struct{}
+
+func (t *c05Tty) Read(p []byte) (int, error)      { return 0, nil }
+func (t *c05Tty) Write(p []byte) (int, error)     { return len(p), nil }
+func (t *c05Tty) Close() error                    { return nil }
+func (t *c05Tty) Start() error                    { return nil }
+func (t *c05Tty) Stop() error                     { return nil }
+func (t *c05Tty) Drain() error                    { return nil }
+func (t *c05Tty) NotifyResize(cb func())          {}
+func (t *c05Tty) WindowSize() (WindowSize, error) { return WindowSize{Width: 100, Height: 40}, nil }
+`
 		case "tcell.(*baseScreen).ChannelEvents/calls#interruptible":
 			g.ReplayGo = replayTest("tcell", []string{"time"}, `
 	s := NewSimulationScreen("")
